@@ -789,6 +789,36 @@ fn w_link_header(b: &[u8], w: &mut dyn std::io::Write) -> Option<WOut> {
         Err(e) => wio(e),
     })
 }
+/// owned ICMPv6 (neighbour discovery) payload structs: first byte selects the variant, the rest are the fields
+fn g_icmp6_payload(rng: &mut Prng) -> Vec<u8> {
+    let mut b = vec![rng.u8()];
+    b.extend_from_slice(&rng.bytes(32));
+    b
+}
+fn w_icmp6_payload(b: &[u8], w: &mut dyn std::io::Write) -> Option<WOut> {
+    use core::net::Ipv6Addr;
+    use etherparse::icmpv6::*;
+    if b.len() < 33 {
+        return None;
+    }
+    let a1 = Ipv6Addr::from(<[u8; 16]>::try_from(&b[1..17]).unwrap());
+    let a2 = Ipv6Addr::from(<[u8; 16]>::try_from(&b[17..33]).unwrap());
+    let p = match b[0] % 5 {
+        0 => Icmpv6Payload::RouterSolicitation(RouterSolicitationPayload),
+        1 => Icmpv6Payload::RouterAdvertisement(RouterAdvertisementPayload {
+            reachable_time: u32::from_be_bytes([b[1], b[2], b[3], b[4]]),
+            retrans_timer: u32::from_be_bytes([b[5], b[6], b[7], b[8]]),
+        }),
+        2 => Icmpv6Payload::NeighborSolicitation(NeighborSolicitationPayload { target_address: a1 }),
+        3 => Icmpv6Payload::NeighborAdvertisement(NeighborAdvertisementPayload { target_address: a1 }),
+        _ => Icmpv6Payload::Redirect(RedirectPayload { target_address: a1, destination_address: a2 }),
+    };
+    let mut w = w;
+    Some(match p.write(&mut w) {
+        Ok(()) => WOut::Ok,
+        Err(e) => wio(e),
+    })
+}
 fn w_transport_header(b: &[u8], w: &mut dyn std::io::Write) -> Option<WOut> {
     let h = match b.first().map(|x| x % 4).unwrap_or(0) {
         0 => TransportHeader::Udp(UdpHeader::from_slice(b).ok()?.0),
@@ -896,4 +926,5 @@ pub const WRITERS: &[WriterType] = &[
     WriterType { name: "Icmpv6Header", gen: g_icmp6, write: w_icmp6, write_to_slice: None, multi_part: false },
     WriterType { name: "LinkHeader", gen: g_link_header, write: w_link_header, write_to_slice: None, multi_part: false },
     WriterType { name: "TransportHeader", gen: g_transport_header, write: w_transport_header, write_to_slice: None, multi_part: false },
+    WriterType { name: "Icmpv6Payload", gen: g_icmp6_payload, write: w_icmp6_payload, write_to_slice: None, multi_part: false },
 ];
